@@ -410,11 +410,12 @@ class Interp:
         if isinstance(a, FV) or isinstance(b, FV):
             w = a.w if isinstance(a, FV) else b.w
             return s.dom.select(c, s.as_float(a, w), s.as_float(b, w))
+        if isinstance(a, MuxPtr) or isinstance(b, MuxPtr): return MuxPtr(c, a, b)
         if isinstance(a, Ptr) and isinstance(b, Ptr):
             if a.r is b.r:
                 if isinstance(a.off, int) and isinstance(b.off, int) and a.off == b.off: return a
                 return Ptr(a.r, simp(z3.If(c, bv(a.off, 64), bv(b.off, 64))))
-            raise EncodingError('select between pointers into different objects')
+            return MuxPtr(c, a, b)
         if isinstance(a, Pack) or isinstance(b, Pack):
             if isinstance(a, Pack) and isinstance(b, Pack) and [n for _, n in a.parts] == [n for _, n in b.parts]:
                 return Pack([(s.ite(c, x, y), n) for (x, n), (y, _) in zip(a.parts, b.parts)])
@@ -610,6 +611,7 @@ class Interp:
 
     def load(s, p, ty, align=1):
         if isinstance(p, Undef): raise EncodingError('load through undef pointer')
+        if isinstance(p, MuxPtr): return s.ite(p.c, s.load(p.a, ty, align), s.load(p.b, ty, align))
         if isinstance(ty, VecTy):
             es = sizeof(ty.el)
             if isinstance(ty.el, IntTy) and ty.el.w < 8: raise EncodingError('load of sub-byte vector')
@@ -629,6 +631,8 @@ class Interp:
 
     def store(s, p, v, ty, align=1):
         if isinstance(p, Undef): raise EncodingError('store through undef pointer')
+        if isinstance(p, MuxPtr):
+            s.store(p.a, s.ite(p.c, v, s.load(p.a, ty, 1)), ty, align); s.store(p.b, s.ite(p.c, s.load(p.b, ty, 1), v), ty, align); return
         if isinstance(ty, VecTy):
             es = sizeof(ty.el)
             if isinstance(p.off, int):
@@ -705,6 +709,7 @@ class Interp:
 
     def gep(s, bty, p, idx):
         if isinstance(p, Undef): return UNDEF
+        if isinstance(p, MuxPtr): return MuxPtr(p.c, s.gep(bty, p.a, idx), s.gep(bty, p.b, idx))
         off = p.off; t = bty; first = True
         for (it, v) in idx:
             if isinstance(v, list): raise EncodingError('vector gep')
